@@ -183,10 +183,13 @@ def perm(ctx):
 
 
 BOUNDED = [bounded("fa_repro.py", "perm_relabel", "C16.perm-relabel.fa",
-                   "ISV/JFA: presenting the labelled statistics in another order, or renaming the class ids by a permutation of 0..K-1, gives exactly the same U, V, D")]
+                   "ISV/JFA: presenting the labelled statistics in another order, or renaming the class ids by a permutation of 0..K-1, gives exactly the same U, V, D"),
+           bounded("fa_repro.py", "array_vs_list", "C16.fa.array-order",
+                   "ISV/JFA fit_using_array (NumPy and Dask arrays): the same labelled samples stored in another order (class ids not first appearing in "
+                   "ascending order, unequal class sizes) give the same U, V, D (float64, rel. tol. 1e-7)")]
 GROUPS = [guard(rng_kmeans), guard(rng_gmm), guard(rng_fa), guard(noglobals), guard(perm)]
 SHARED = [("C14", "wccn", ["C14.wccn.mu"]), ("C14", "partition_only", ["C14.wccn.partition-only"])]
-REPLAY = [("C14", "effects_repro.py", "determinism", {}), ("C16.perm-relabel", "fa_repro.py", "perm_relabel", {}), ("C16", "effects_repro.py", "determinism", {})]
+REPLAY = [("C16.fa.array-order", "fa_repro.py", "array_vs_list", {}), ("C14", "effects_repro.py", "determinism", {}), ("C16.perm-relabel", "fa_repro.py", "perm_relabel", {}), ("C16", "effects_repro.py", "determinism", {})]
 TRUSTED = ["reindexing a finite sum by a bijection does not change it (real arithmetic)",
            "dask_ml k_init with an integer random_state is a function of its arguments only and neither reads nor writes NumPy's global generator",
            "with a seeded *sampling* initialiser (k-means||, k-means++, random) the initial centroids are chosen by row index, so the clause "
